@@ -1,6 +1,9 @@
 import Firefly.Proof.AmlLex
 import Firefly.Proof.AmlParser
 import Firefly.Model.AmlParser
+import Firefly.Proof.AmlFirstPass
+import Firefly.Proof.AmlPasses
+import Firefly.Proof.AmlFirstPassG
 /-!
 # C12 — Malformed AML is rejected with an error, never a crash, hang or stray pointer
 
@@ -255,5 +258,148 @@ example (d : Bytes) : ∀ t, AmlParser.defaultTree 0 = .ok t →
     exact Array.mem_toList_iff.mpr this
   have := (List.all_eq_true.mp this) o hm
   simp [hv] at this
+
+/-! ## totality and well-formedness, stage by stage
+
+**The full-strength statements of this half of C12 are OPEN** (not theorems of this file):
+
+* `total` — for every table `d`, every well-formed pool and `fuelFor`: `parseAML d (fuelFor d t) h s` is `.ok _`
+  (never `.panic`, never `.outOfFuel`);
+* `tree_WF` — in the state `parseAML` returns, after success *and* after failure, the pool satisfies `C13.WF`;
+* `print_total` — `PrettyPrint` of the resulting tree does not panic (no Lean model of `PrettyPrint` exists; the
+  oracle runs it on the real code for every input).
+
+What is proved towards them, each piece named for what it is:
+
+| piece | what it says | strength |
+|---|---|---|
+| `first_pass_total` | `init; scopeEnter(0); parseObjectList` (+ everything it calls) returns `.ok` | total (no panic, no fuel exhaustion with fuel ≥ 13·len+13), from ANY well-formed pool (freed slots reused) |
+| `first_pass_WF` | the state it returns (ok or failed) has a `C13.WF` pool | same hypotheses |
+| `connect_named_no_panic_WF` | `connectNamedObjArgs` + `attachSiblingsAsArgs` | never `.panic`, `C13.WF` kept, live set unchanged; fuel bound NOT proved |
+| `relocate_no_panic_WF` | `relocateNamedObjects` | same strength |
+| `connect_non_named_no_panic_WF` | `connectNonNamedObjArgs` | same strength |
+| `resolve_calls_no_panic_WF` | `resolveMethodCalls` | same strength, under `CallShape` (hypothesis, kept) |
+
+Not covered by any theorem: `mergeScopeDirectives` (it frees objects while the walk holds saved sibling
+indices, its `append` contract rests on a property of `Find`, and its unchecked `value.([]byte)` / two-argument
+shape of a `Scope` directive would have to be exported by the first pass), `parseDeferredBlocks` (the strict
+re-parse in `parseModeAllBlocks`), the fuel bound of the tree walks, and the composition into `parseAML`.  These are decided per input by the oracle on the real
+code and by the model-vs-implementation correspondence.
+
+`AmlParser.firstPass` is `p.init(…); p.scopeEnter(0); p.parseObjectList()` — everything `ParseAML` does before
+the tree passes (`AmlParser.parseAML_eq`: `parseAML = firstPass >>= afterFirstPass`).
+`AmlParser.G.TreeG` = `C13.WF` ∧ live root ∧ opcode-table indices of live objects in range. -/
+
+/-- the first pass is a prefix of `ParseAML`: its panic / exhausted fuel would be one of `ParseAML`, and when
+it fails `ParseAML` returns its parse error in the same state -/
+theorem first_pass_is_prefix (d : Bytes) (fuel handle : Nat) (s : AmlParser.PState) :
+    AmlParser.parseAML d fuel handle = AmlParser.firstPass d fuel handle >>= AmlParser.afterFirstPass d fuel ∧
+    (∀ e, AmlParser.firstPass d fuel handle s = .error e → AmlParser.parseAML d fuel handle s = .error e) ∧
+    (∀ s', AmlParser.firstPass d fuel handle s = .ok (.failed, s') → AmlParser.parseAML d fuel handle s = .ok (false, s')) :=
+  ⟨AmlParser.parseAML_eq d fuel handle, AmlParser.parseAML_of_firstPass d fuel handle s⟩
+
+/-- **The first pass is total** (`C12.total`, stage `parseObjectList`).  For every table `d` shorter than
+2^32 − 2^28 bytes, every parser state whose pool is well-formed (`TreeG` = `C13.WF` ∧ live root ∧ opcode-table
+indices of live objects in range; freed slots MAY exist — a second or later table — and are reused by
+`newObject`) with room for 16 objects per table byte below the `uint32` index limit, every table handle and every
+fuel ≥ 13·len + 13 (`fuelFor` is): `init`, `scopeEnter(0)` and `parseObjectList` with everything it calls
+(`parseNextObject`, `parseObjectArgs`, `parseArgs`, `parseArg`, `parseTarget`, `parseFieldElements`,
+`parseNamePathOrMethodCall`, every decoder, every tree operation) return normally: no `.panic` (no Go index /
+nil / slice panic, no failed tree-operation contract), no `.outOfFuel` (no hang, recursion depth ≤ 13 frames per
+table byte). -/
+theorem first_pass_total (d : Bytes) (hd : d.size + 268435456 ≤ 4294967296) (s : AmlParser.PState)
+    (ht : AmlParser.G.TreeG s.tree) (hsz : s.tree.pool.size + 16 * d.size ≤ 4294967295) (fuel handle : Nat)
+    (hfuel : 13 * d.size + 13 ≤ fuel) :
+    ∃ res s', AmlParser.firstPass d fuel handle s = .ok (res, s') := by
+  obtain ⟨res, s', e, _⟩ := AmlParser.G.firstPass_tot hd ht hsz fuel handle hfuel
+  exact ⟨res, s', e⟩
+
+/-- **The first pass keeps the pool well-formed** (`C12.tree_WF`, stage `parseObjectList`, after success *and*
+after failure).  Under the hypotheses of `first_pass_total`, in whatever state the first pass returns — `ok` or
+`failed` — the pool satisfies `C13.WF` (parent, sibling and child links agree in both directions, the free list
+is exact), the root is live, every live object's opcode-table index is in range, the reader is inside the table
+and every index on the scope stack is a live slot. -/
+theorem first_pass_WF (d : Bytes) (hd : d.size + 268435456 ≤ 4294967296) (s : AmlParser.PState)
+    (ht : AmlParser.G.TreeG s.tree) (hsz : s.tree.pool.size + 16 * d.size ≤ 4294967295) (fuel handle : Nat)
+    (hfuel : 13 * d.size + 13 ≤ fuel) :
+    ∀ res s', AmlParser.firstPass d fuel handle s = .ok (res, s') →
+      C13.WF s'.tree ∧ C13.live s'.tree 0 = true ∧
+      (∀ i, C13.live s'.tree i = true → (opFlags (C13.slot s'.tree i).infoIndex).isSome = true) ∧
+      s'.r.offset ≤ d.size ∧ s'.r.pkgEnd ≤ d.size ∧ (∀ x ∈ s'.scopeStack.toList, C13.live s'.tree x = true) := by
+  intro res s' e
+  obtain ⟨res2, s2, e2, h2⟩ := AmlParser.G.firstPass_tot hd ht hsz fuel handle hfuel
+  rw [e] at e2
+  cases e2
+  exact ⟨h2.tree.wf, h2.tree.root, h2.tree.info, h2.inv.1, h2.inv.2, h2.scopes⟩
+
+/-- non-vacuity of the two theorems: the default-scope pool satisfies `TreeG`, so does a pool with a freed slot
+(the default scopes with `_SI_` freed: the next `newObject` reuses slot 4), and `fuelFor` is enough fuel -/
+example : ∀ t, AmlParser.defaultTree 0 = .ok t → AmlParser.G.TreeG t := by
+  intro t ht
+  have h : (match AmlParser.defaultTree 0 with
+    | .ok t => AmlParser.G.treeGb t | .error _ => false) = true := by decide +kernel
+  rw [ht] at h
+  exact AmlParser.G.treeG_of_b h
+example : ∀ t t', AmlParser.defaultTree 0 = .ok t → t.free 4 = .ok t' →
+    AmlParser.G.TreeG t' ∧ C13.live t' 4 = false := by
+  intro t t' ht ht'
+  have h : (match AmlParser.defaultTree 0 with
+    | .ok t => (match t.free 4 with
+      | .ok t' => AmlParser.G.treeGb t' && !C13.live t' 4 | .error _ => false) | .error _ => false) = true := by decide +kernel
+  rw [ht] at h
+  simp only [ht'] at h
+  simp only [Bool.and_eq_true, Bool.not_eq_true'] at h
+  exact ⟨AmlParser.G.treeG_of_b h.1, h.2⟩
+example (d : Bytes) (t : ObjectTree) : 13 * d.size + 13 ≤ AmlParser.fuelFor d t := AmlParser.fuelFor_enough d t
+
+/-! ### the tree passes that do not free objects: never a panic, the pool stays well-formed
+
+`NoPanic x s Q` (`AmlParser.NPs`): run from `s`, `x` does not end in `.panic` — it returns, or the model's fuel
+runs out (the fuel bound of the tree walks is *not* proved here) — and `Q` holds of whatever it returns.
+`TreeInv` (`AmlParser.TP`): `C13.WF`, a live root, every live object's opcode-table index in range. -/
+
+/-- **`connectNamedObjArgs` and `attachSiblingsAsArgs` never panic and keep the pool well-formed.**  From every
+state with a well-formed pool, for every table, fuel and start object: no `.panic` (no nil dereference of
+`ObjectAt`, no opcode-table index out of range, and every `detach`/`append` is called inside its contract —
+the sibling moved is a child of the parent it is detached from and is not an ancestor of the object it is
+appended to), and in the state returned (`ok` or `failed`) the pool is well-formed with exactly the same live
+slots. -/
+theorem connect_named_no_panic_WF (d : Bytes) (fuel objIndex : Nat) (s : AmlParser.PState) (h : AmlParser.TP s)
+    (ho : C13.live s.tree objIndex = true) :
+    AmlParser.NPs (AmlParser.connectNamedObjArgs d fuel objIndex) s
+      (fun _ s' => AmlParser.TP s' ∧ s'.tree.pool.size = s.tree.pool.size ∧ ∀ x, C13.live s'.tree x = C13.live s.tree x) :=
+  ((AmlParser.connectNamed_np d fuel).1 objIndex h ho).mono (fun _ _ hq => ⟨hq.1, hq.2.size, hq.2.live⟩)
+
+/-- **`relocateNamedObjects` never panics and keeps the pool well-formed** (the root is a scope block): the
+`ClosestNamedAncestor`/`Find` lookups are total, the repaired ancestor guard makes `append(target, obj)` legal,
+every object that had a parent still has one, no slot is freed. -/
+theorem relocate_no_panic_WF (d : Bytes) (fuel : Nat) (s : AmlParser.PState) (h : AmlParser.TP s)
+    (hroot : (C13.slot s.tree 0).opcode = opIntScopeBlock) :
+    AmlParser.NPs (AmlParser.relocateNamedObjects d fuel 0) s
+      (fun _ s' => AmlParser.TP s' ∧ s'.tree.pool.size = s.tree.pool.size ∧ ∀ x, C13.live s'.tree x = C13.live s.tree x) :=
+  ((AmlParser.relocate_np d fuel).1 0 h h.root (Or.inr hroot)).mono (fun _ _ hq => ⟨hq.1, hq.2.1.size, hq.2.1.live⟩)
+
+/-- **`connectNonNamedObjArgs` never panics and keeps the pool well-formed** (siblings of the object and, those
+exhausted, of its parent are moved under it; the parent links of all ancestors of the walk's current object are
+untouched, which is what makes the "uncle" moves legal). -/
+theorem connect_non_named_no_panic_WF (fuel objIndex : Nat) (s : AmlParser.PState) (h : AmlParser.TP s)
+    (ho : C13.live s.tree objIndex = true) :
+    AmlParser.NPs (AmlParser.connectNonNamedObjArgs fuel objIndex) s
+      (fun _ s' => AmlParser.TP s' ∧ s'.tree.pool.size = s.tree.pool.size ∧ ∀ x, C13.live s'.tree x = C13.live s.tree x) :=
+  ((AmlParser.connectNonNamed_np fuel).1 objIndex h ho).mono (fun _ _ hq => ⟨hq.1, hq.2.1.size, hq.2.1.live⟩)
+
+/-- **`resolveMethodCalls` never panics and keeps the pool well-formed**, provided every unresolved
+name-or-call object holds the `[]byte` of its path (`CallShape`: what `parseNamePathOrMethodCall` stores; the
+unchecked type assertion `value.([]byte)` of `resolveMethodCalls` relies on it) — and it keeps `CallShape`. -/
+theorem resolve_calls_no_panic_WF (d : Bytes) (fuel objIndex : Nat) (s : AmlParser.PState) (h : AmlParser.TP s)
+    (hc : AmlParser.CallShape s) (ho : C13.live s.tree objIndex = true) :
+    AmlParser.NPs (AmlParser.resolveMethodCalls d fuel objIndex) s
+      (fun _ s' => AmlParser.TP s' ∧ AmlParser.CallShape s' ∧ s'.tree.pool.size = s.tree.pool.size ∧
+        ∀ x, C13.live s'.tree x = C13.live s.tree x) :=
+  ((AmlParser.resolve_np d fuel).1 objIndex h hc ho).mono (fun _ _ hq => ⟨hq.1, hq.2.1, hq.2.2.1.size, hq.2.2.1.live⟩)
+
+/-- the state the first pass returns satisfies the hypothesis of the tree-pass theorems -/
+theorem first_pass_gives_TreeInv (d : Bytes) (s : AmlParser.PState) (h : AmlParser.G.FP d s) : AmlParser.TP s :=
+  ⟨h.tree.wf, h.tree.root, h.tree.info⟩
 
 end Firefly.C12
